@@ -2,6 +2,7 @@ package rules
 
 import (
 	"fmt"
+	"go/token"
 	"sort"
 	"strings"
 
@@ -558,6 +559,183 @@ func checkSemantics(c *Ctx, ri *rvInfo, k rvConsts) int {
 		sort.Strings(w2)
 		g, w := strings.Join(got, " ; "), strings.Join(w2, " ; ")
 		c.Oblige("C01.sem", key, pos, g == w, fmt.Sprintf("lifted effects differ from the instruction's definition: lifted { %s } reference { %s }", g, w))
+		if g != w {
+			continue
+		}
+		// every other path on which no register operand is x0: the lifter may
+		// special-case values of an immediate (imm == 0); such a path has to give
+		// the definition specialised to that value
+		for qi := range f.Paths {
+			q := &f.Paths[qi]
+			if q == p || q.Panicked {
+				continue
+			}
+			regsNonZero, zeroImms := true, map[string]bool{}
+			for _, cr := range q.Conds {
+				d := cr.Desc
+				if d == nil || d.Const != 0 || (d.Op != token.EQL && d.Op != token.NEQ) {
+					continue
+				}
+				isZero := (d.Op == token.EQL) == cr.Outcome
+				if d.Neg {
+					isZero = !isZero
+				}
+				rg := absint.Ranges(d.XDep)
+				switch rg {
+				case "7-11", "15-19", "20-24":
+					if isZero {
+						regsNonZero = false
+					}
+				default:
+					if isZero && strings.ContainsAny(rg, "-,") {
+						zeroImms[rg] = true
+					}
+				}
+			}
+			if !regsNonZero {
+				continue
+			}
+			sq := &semCanon{in: in, ops: ops}
+			var gq []string
+			for _, t := range effectsOfPath(q) {
+				gq = append(gq, simplifyCanon(sq.effect(t, k.ipKey)))
+			}
+			if sq.err != "" {
+				continue
+			}
+			sort.Strings(gq)
+			var wq []string
+			for _, x := range want {
+				for rg := range zeroImms {
+					x = strings.ReplaceAll(x, "imm{"+rg+"}", "k0x0")
+				}
+				wq = append(wq, simplifyCanon(x))
+			}
+			sort.Strings(wq)
+			gs, ws := strings.Join(gq, " ; "), strings.Join(wq, " ; ")
+			if gs != ws {
+				var zs []string
+				for rg := range zeroImms {
+					zs = append(zs, "imm{"+rg+"} == 0")
+				}
+				sort.Strings(zs)
+				c.Fail("C01.sem", key+"/path["+strings.Join(zs, ",")+"]", pos, fmt.Sprintf("on the path where %s the lifted effects differ from the definition specialised to that value: lifted { %s } reference { %s }", strings.Join(zs, " and "), gs, ws))
+				break
+			}
+		}
 	}
 	return n
+}
+
+// simplifyCanon applies the identities of a zero operand to a canonical term:
+// add/or/xor/sub/lsh/rsh/rsha(x, 0) = x, and(x, 0) = 0 (operation and operand
+// of the same width).
+func simplifyCanon(s string) string {
+	var out strings.Builder
+	i := 0
+	for i < len(s) {
+		// an operator application: name '(' args ')' '@' width
+		j := i
+		for j < len(s) && (s[j] == '_' || s[j] >= 'a' && s[j] <= 'z' || s[j] >= 'A' && s[j] <= 'Z' || (j > i && s[j] >= '0' && s[j] <= '9')) {
+			j++
+		}
+		if j > i && j < len(s) && s[j] == '(' {
+			// matching parenthesis
+			depth, k := 0, j
+			for ; k < len(s); k++ {
+				if s[k] == '(' {
+					depth++
+				} else if s[k] == ')' {
+					depth--
+					if depth == 0 {
+						break
+					}
+				}
+			}
+			if k < len(s) {
+				name := s[i:j]
+				inner := simplifyCanon(s[j+1 : k])
+				end := k + 1
+				width := ""
+				if end < len(s) && s[end] == '@' {
+					e := end + 1
+					for e < len(s) && s[e] >= '0' && s[e] <= '9' {
+						e++
+					}
+					width = s[end+1 : e]
+					end = e
+				}
+				out.WriteString(simplifyCall(name, inner, width))
+				i = end
+				continue
+			}
+		}
+		if j > i {
+			out.WriteString(s[i:j])
+			i = j
+			continue
+		}
+		out.WriteByte(s[i])
+		i++
+	}
+	return out.String()
+}
+
+func simplifyCall(name, inner, width string) string {
+	render := func() string {
+		if width != "" {
+			return name + "(" + inner + ")@" + width
+		}
+		return name + "(" + inner + ")"
+	}
+	// split the arguments at depth 0
+	var args []string
+	depth, last := 0, 0
+	for k := 0; k < len(inner); k++ {
+		switch inner[k] {
+		case '(', '{', '[':
+			depth++
+		case ')', '}', ']':
+			depth--
+		case ',':
+			if depth == 0 && k+1 < len(inner) && inner[k+1] == ' ' {
+				args = append(args, inner[last:k])
+				last = k + 2
+			}
+		}
+	}
+	args = append(args, inner[last:])
+	if len(args) != 2 || width == "" {
+		return render()
+	}
+	isZero := func(a string) bool { return a == "k0x0" }
+	widthOf := func(a string) string {
+		if i := strings.LastIndexAny(a, ":@"); i >= 0 {
+			return a[i+1:]
+		}
+		return ""
+	}
+	x, z := "", -1
+	switch {
+	case isZero(args[0]):
+		x, z = args[1], 0
+	case isZero(args[1]):
+		x, z = args[0], 1
+	}
+	if z < 0 {
+		return render()
+	}
+	switch name {
+	case "add", "or", "xor":
+		if widthOf(x) == width {
+			return x
+		}
+	case "sub", "lsh", "rsh", "rsha":
+		if z == 1 && widthOf(x) == width {
+			return x
+		}
+	case "and":
+		return "k0x0"
+	}
+	return render()
 }
